@@ -103,6 +103,38 @@ var Presets = map[string]*Config{
 					{"short", "short", TStr}, {"prerelease", "prerelease", TStr}, {"build", "build", TStr}}},
 			}}
 	}(),
+	// golang.org/x/mod/module/module.go (the module-cache copy of the version /repo's go.mod requires): the escape
+	// codecs, CheckPath / checkPath / checkElem and the character classes, SplitPathVersion / splitGopkgIn,
+	// CheckPathMajor / MatchPathMajor, Check.  Errors are opaque (only nil / non-nil is meaningful); the Unicode
+	// tables the code consults (unicode.IsLetter, the case folding of strings.EqualFold) are the parameter
+	// `u : GoLib.Unicode` of every definition; package semver is the translation GIV.Go.Semver (GIV/Gen/SemverGo.lean).
+	"module": func() *Config {
+		lib := bytesLib()
+		lib["strings.Contains"] = LibFn{Lean: "GoLib.contains", Ret: TBool}
+		lib["strings.Count"] = LibFn{Lean: "GoLib.count", Ret: TInt}
+		lib["strings.ContainsRune"] = LibFn{Lean: "GoLib.containsRune", Ret: TBool}
+		lib["strings.LastIndexByte"] = LibFn{Lean: "GoLib.lastIndexByte", Ret: TInt}
+		lib["strings.EqualFold"] = LibFn{Lean: "u.equalFold", Ret: TBool}
+		lib["unicode.IsLetter"] = LibFn{Lean: "u.isLetter", Ret: TBool}
+		lib["utf8.ValidString"] = LibFn{Lean: "GoLib.utf8Valid", Ret: TBool}
+		lib["semver.IsValid"] = LibFn{Lean: "GIV.Go.Semver.IsValid", Ret: TBool, Option: true}
+		lib["semver.Major"] = LibFn{Lean: "GIV.Go.Semver.Major", Ret: TStr, Option: true}
+		lib["semver.Build"] = LibFn{Lean: "GIV.Go.Semver.Build", Ret: TStr, Option: true}
+		return &Config{
+			Lib: lib,
+			Globals: map[string]Global{
+				"utf8.RuneSelf":  {Lean: "128", T: TInt},
+				"utf8.RuneError": {Lean: "65533", T: TInt},
+			},
+			Structs:      map[string]*Struct{},
+			Fuel:         map[string]string{},
+			ExtraParams:  []Param{{Lean: "u", Type: "GoLib.Unicode"}},
+			RuneFn:       "GoLib.runes",
+			RuneIdxFn:    "GoLib.runesIdx",
+			ErrorTypes:   map[string]bool{"InvalidPathError": true, "InvalidVersionError": true, "ModuleError": true},
+			OpaqueErrors: true,
+		}
+	}(),
 	"proxy": func() *Config {
 		return &Config{Lib: bytesLib(), Globals: map[string]Global{}, Structs: map[string]*Struct{}, Fuel: map[string]string{}}
 	}(),
